@@ -85,7 +85,18 @@ fn case(rng: &mut Rng, st: &mut Stats, exact: bool) {
             seq.push(0);
         }
         let pos = rng.below(seq.len());
-        seq[pos] = n + rng.below(3);
+        // out-of-range values of every size: just beyond the list, around the machine-word
+        // width, congruent to a valid index modulo 64 / 2^32, huge
+        seq[pos] = match rng.below(10) {
+            0..=3 => n + rng.below(3),
+            4 => 63 + rng.below(3),
+            5 => 64 + if n > 0 { rng.below(n) } else { 0 },
+            6 => 128 + if n > 0 { rng.below(n) } else { 0 },
+            7 => (1usize << 32) + if n > 0 { rng.below(n) } else { 0 },
+            8 => usize::MAX - rng.below(2),
+            _ => n + 64 * rng.range(1, 3),
+        }
+        .max(n);
     }
     let has_bad = seq.iter().any(|i| *i >= n);
     let deep = rng.chance(1, 2);
